@@ -23,7 +23,9 @@ SPEC = {
         "cause, each a listed known finding; three further root causes were repaired in /repo and their witnesses are kept "
         "as theorems about the model at the old fact values (C16_old_*). The statement / builtin layer of the two evaluators "
         "(Model/AspInterp.lean, Model/PyInterp.lean) is tied to the real interpreter and to python3 only by correspondence; "
-        "no whole-program agreement theorem is claimed (program-level statements are single decided samples)."
+        "at program level there is one all-operands theorem (C16_program_arith: for every op in + - * // % and all int "
+        "literals the parser accepts whose result fits 64 bits, both interpreters run `a = x op y` and render the same "
+        "globals); no agreement theorem for arbitrary programs is claimed (other program-level statements are single decided samples)."
     ),
     "technique": "Lean proofs about a transcription of interpretOps + differential three-way tie (asp, Lean asp model, Lean Python reference, python3) with repair-based classification of disagreements",
     "trusted": [
